@@ -143,6 +143,11 @@ def C19(tier, seed):
             "seg ids arbitrary integers" % ((3, 2) if q else (4, 3))),
     ]
     runs += [
+        Run("unique:multiseg:2x2x2:%s" % lay, labels.unique_harness, dict(shape=(2, 2, 2), multiseg=True, layout=lay),
+            labels.unique_replay, ("returned",), "as above, the input a NON-contiguous array (%s): numpy's reshape / "
+            "astype view-or-copy behaviour is carried by the model's cell array" % what)
+        for lay, what in (("moveaxis01", "np.moveaxis view of a time-major stack"), ("F", "Fortran order"))]
+    runs += [
         Run("unique:uint8:T3xP2", labels.unique_harness, dict(shape=(3, 2), dtype="uint8"), labels.unique_replay,
             ("returned", "witness:two_frames_labelled"),
             "uint8 label array (cells 0..255): 8/16/32-bit integer arrays wrap around in the model as in numpy, so a "
@@ -225,6 +230,11 @@ def C12(tier, seed):
                                        name_map={"id": "node", "parent_id": "mother", "time": "frame",
                                                  "pos": ["z", "y", "x"]})),
         ("swapped_axes", dict(ids=[4, 2], columns=ccols, name_map=dict(cnm, pos=["x", "y"]))),
+        # row labels of the DataFrame are not 0..n-1 (a sorted / filtered table): pandas aligns on labels
+        ("permuted_row_labels+custom", dict(ids=[4, 2, 7], columns=dict(ccols, c="int"), name_map=dict(cnm, c="c"),
+                                           index=[2, 0, 1])),
+        ("filtered_row_labels+loaded_feature", dict(ids=[4, 2], columns=dict(ccols, area="real"), name_map=cnm,
+                                                    index=[5, 1], features={"Area": "area"})),
         ("duplicate_ids", dict(ids=[3, 3, 7], columns=ccols, name_map=cnm)),
         ("duplicate_string_ids", dict(ids=["a", "a"], columns=ccols, name_map=cnm)),
         ("no_time_mapping", dict(ids=[3, 1], columns=ccols, name_map={k: v for k, v in cnm.items() if k != "time"},
@@ -314,6 +324,11 @@ def C13(tier, seed):
             ("relabelled", "shifted", "unshifted"), b),
         Run("handle_segmentation", relabel.harness, dict(T=T, P=P, M=2 if q else 3, via_builder=True), relabel.replay,
             ("relabelled", "shortcut"), b.replace("<=%d" % M, "<=%d" % (2 if q else 3))),
+        Run("handle_segmentation:positions_loaded", relabel.harness,
+            dict(T=T, P=2 if q else 3, M=2 if q else 3, via_builder=True, with_pos=True), relabel.replay,
+            ("relabelled", "shortcut"),
+            "as above, the nodes also carry a loaded position (any pixel of their own mask): the importer validates "
+            "the graph against the segmentation first (geff has_seg_ids_at_coords = contract stub)"),
         Run("relabel_segmentation:uint8_array:ids_254..258", relabel.harness,
             dict(T=2, P=2, M=2, dtype="uint8", idlo=254, idmax=4), relabel.replay, ("relabelled",),
             "uint8 label array (cells 0..255), node ids 254..258: 8/16/32-bit arrays wrap around in the model as in "
